@@ -170,6 +170,8 @@ func (in *c16Inst) readAll() map[string]string {
 	return m
 }
 
+var c16PairW = &icPair{name: "pw", from: fix.FullID(fix.ChainW, fix.SvcW), to: fix.FullID(fix.ChainB, fix.Svc2), srcChain: fix.ChainW, dstChain: fix.ChainB}
+
 var c16ChainAdmin = map[string]crypto.PrivateKey{fix.ChainA: fix.KA, fix.ChainB: fix.KB, fix.ChainF: fix.KF, fix.ChainW: fix.KW}
 
 // c16Chain: the appchain an object belongs to ("" for roles and nodes).
@@ -269,6 +271,29 @@ func (in *c16Inst) apply(op string) bool {
 			st.expectProbe = "accept"
 		}
 		st.res = w.Block(fix.IBTPTx(k, w.N.Next(k), &pb.IBTP{From: p.from, To: p.to, Index: idx}, fix.GoodProof))
+		if st.res.Receipts[0].IsSuccess() {
+			in.nextReq[p.name]++
+		}
+	case "vprobe": // vprobe:<T|F>: request W:sw -> B:s2 whose proof starts with that letter
+		if in.objs["rWw"] == nil {
+			return false
+		}
+		p := c16PairW
+		idx := in.nextReq[p.name] + 1
+		st.probe, st.probeIdx = p, idx
+		switch {
+		case !c16Available[st.before["svcW"]]:
+			st.expectProbe, st.why = "reject", fmt.Sprintf("source service is %s", st.before["svcW"])
+		case f[1] == "F" && st.before["rWh"] != "available":
+			st.expectProbe, st.why = "reject", fmt.Sprintf("the proof is refused by the chain's master rule (deployed rule %s, happy rule %s)", st.before["rWw"], st.before["rWh"])
+		default:
+			st.expectProbe = "accept"
+		}
+		proof := []byte("True")
+		if f[1] == "F" {
+			proof = []byte("False")
+		}
+		st.res = w.Block(fix.IBTPTx(fix.KW, w.N.Next(fix.KW), &pb.IBTP{From: p.from, To: p.to, Index: idx}, proof))
 		if st.res.Receipts[0].IsSuccess() {
 			in.nextReq[p.name]++
 		}
@@ -380,6 +405,9 @@ func (in *c16Inst) check(c *mc.Ctx, path []string) {
 				}
 				if t.kind == "rule" && e.trigger == "peer:"+st.trigger {
 					direct = true
+				}
+				if t.kind == "rule" && o.kind == "service" && strings.HasPrefix(e.trigger, "cascade:") {
+					cascade = true // the chain (and with it its services) is paused while its master rule is replaced
 				}
 			}
 			if !direct && !cascade {
@@ -539,7 +567,7 @@ func (in *c16Inst) key() string {
 		op += "|logout-on-top/" + in.open2.lastStatus
 	}
 	used := ""
-	for _, p := range []string{"p1", "p3", "p5"} {
+	for _, p := range []string{"p1", "p3", "p5", "pw"} {
 		if in.nextReq[p] > 0 {
 			used += p
 		}
